@@ -6,6 +6,7 @@ import (
 	"os"
 	"path/filepath"
 	"strconv"
+	"strings"
 	"testing"
 	"time"
 )
@@ -117,6 +118,15 @@ func WorkerMain(t *testing.T, specs map[string]*Spec) {
 		batchMain(t, spec, prop, tier)
 	case "det":
 		detMain(t, spec, prop, tier)
+	case "dump": // debugging aid: the full event log of one generated run (VERIF_SEED = the run's seed)
+		d := NewGenD(prop, tier, envU64("VERIF_SEED", 1))
+		d.Cfg = spec.GenConfig(d.Rng, tier)
+		d.KeepLog = true
+		if infra := runOne(t, spec, d); infra != "" {
+			fmt.Printf("INFRA %s\n", infra)
+			os.Exit(2)
+		}
+		_ = os.WriteFile(os.Getenv("VERIF_OUT"), []byte(strings.Join(d.Lines, "\n")+"\n"+d.LogHash()+"\n"), 0o644)
 	default:
 		fmt.Printf("INFRA unknown mode %q\n", mode)
 		os.Exit(2)
